@@ -61,6 +61,18 @@ type c05Fleet struct {
 	stats   struct {
 		emptiedRestart, cleanerDeletedNewest, crashes, restarts, mutations int
 		soleCopyAtRisk                                                     bool
+		// application commits that would have landed between the end of a Lightning Stream write
+		// transaction that turned out empty and the following env.Info(): the listed known finding
+		// txnid-reuse-after-empty-ls-txn (the commit is taken for LS's own and never uploaded). Excluded
+		// by construction - the instance is stepped to its next yield point first - and counted.
+		excludedTxnReuse int
+	}
+}
+
+// excludedFindings reports the redirections to the evidence.
+func (f *c05Fleet) excludedFindings(o *vcore.Obs) {
+	for i := 0; i < f.stats.excludedTxnReuse; i++ {
+		o.Excluded("txnid-reuse-after-empty-ls-txn")
 	}
 }
 
@@ -273,6 +285,12 @@ func (f *c05Fleet) exec(oi int, op C05Op) error {
 	where := fmt.Sprintf("step %d (%s i%d)", oi, op.Kind, i)
 	switch op.Kind {
 	case "app":
+		if nd.parked && (nd.At.Point == "load.after-txn" || nd.At.Point == "send.after-txn") && uint64(lm.LastTxnID(nd.Env.Env)) < nd.At.N {
+			f.stats.excludedTxnReuse++
+			if err := f.step(i, 1, ""); err != nil {
+				return fmt.Errorf("%s: %w", where, err)
+			}
+		}
 		if err := f.appCommit(i, op.Changes); err != nil {
 			return fmt.Errorf("%s: harness: %v", where, err)
 		}
@@ -369,6 +387,7 @@ func checkC05(c C05Case, o *vcore.Obs) error {
 		time.Sleep(2 * time.Millisecond)
 	}
 	o.NonTrivial((f.stats.emptiedRestart > 0 && f.stats.soleCopyAtRisk) || f.stats.cleanerDeletedNewest > 0)
+	f.excludedFindings(o)
 	o.ClassIf(f.stats.emptiedRestart > 0, "restart-with-emptied-lmdb")
 	o.ClassIf(f.stats.crashes > f.stats.emptiedRestart, "restart-with-kept-lmdb")
 	o.ClassIf(f.stats.cleanerDeletedNewest > 0, "cleaner-deleted-a-newest-snapshot")
